@@ -62,6 +62,8 @@ class IpReach:
         plength = unpack('!B', data[0:1])[0]
         # octet = int(math.ceil(plength / 8))
         octet = len(data[1:])
+        if code == PROTOCOL_ID_IPV6 and octet > 16:
+            raise Notify(3, 10, f'BGP-LS ip reachability prefix is {octet} octets long, more than an IPv6 address holds')
 
         if code == PROTOCOL_ID_IPV6:
             # IPv6
